@@ -81,6 +81,30 @@ def replay(r):
             if bad:
                 return True, "logaddexp2(%r, %r) = %r, expected %r" % (x, y, got, want)
         return False, "ok"
+    if r["kind"] == "dtype":
+        # real compiled kernel on single-precision PWMs vs the exact tail distribution (double-precision accuracy expected)
+        rng = numpy.random.RandomState(1)
+        for w in (6, 9, 12):
+            for _ in range(6):
+                pw = rng.dirichlet(numpy.ones(4) * 0.7, size=w).T
+                lo = (numpy.log2(pw + 0.001) - numpy.log2(0.25))
+                for dt in (numpy.float32, numpy.float64):
+                    lp = numpy.ascontiguousarray(lo.astype(dt))
+                    smallest, tab = rf._pwm_to_mapping(lp, 0.1)
+                    Mi = numpy.round(lp / 0.1).astype(int)
+                    pmf = {0: Fraction(1)}
+                    for c in range(w):
+                        new = {}
+                        for s_, p_ in pmf.items():
+                            for k in range(4):
+                                new[s_ + int(Mi[k, c])] = new.get(s_ + int(Mi[k, c]), 0) + p_ / 4
+                        pmf = new
+                    for j in range(len(tab)):
+                        want = float(sum(p_ for s_, p_ in pmf.items() if s_ >= smallest + j))
+                        got = 2.0 ** tab[j]
+                        if got > 1.0 + 1e-12 or abs(got - want) > 1e-10 * max(want, 1e-30) + 1e-300:
+                            return True, "width %d, %s PWM: table[%d] = %.17g, exact tail probability %.17g (relative error %.2g)" % (w, numpy.dtype(dt).name, j, got, want, abs(got - want) / max(want, 1e-300))
+        return False, "ok"
     widths = r.get("widths") or [1, 2, 3]
     rng = numpy.random.RandomState(0)
     mats = []
@@ -195,7 +219,38 @@ def worker(cfg):
             M[c] = v
         return M
 
-    if kind == "whole_l1":
+    if kind == "dtype":
+        # the table of a PWM handed over in single precision (torch's default dtype): the distribution must still be accumulated in
+        # double precision.  The whole real function runs on a concrete matrix; every lossy store into a float32/16 array is recorded.
+        M, bs = cfg["M"], Fraction(cfg["bin"])
+        l = len(M[0])
+        fimo.logaddexp2 = summary_logaddexp2
+
+        def body(ctx):
+            T.NARROW_TRACK[0] = []
+            try:
+                smallest, tab = fimo._pwm_to_mapping(T.NDArray(np.array([[Fraction(v) * bs for v in row] for row in M], dtype=object), dtype=cfg["dtype"]), bs)
+                events = list(T.NARROW_TRACK[0])
+            finally:
+                T.NARROW_TRACK[0] = None
+            pmf = _brute(M, l)
+            ctx.stats.obligations += 2
+            ok_tab = smallest <= min(pmf) and all(_log_any(tab.a[j]).p == sum(p_ for s_, p_ in pmf.items() if s_ >= smallest + j) for j in range(tab.shape[0]))
+            if not ok_tab:
+                add("pwm_to_mapping:wrong-table", "the table of a concrete integer matrix is not its tail distribution", dict(cfg, widths=[l]))
+            else:
+                ctx.stats.discharged += 1
+            if events or str(tab.dtype) != "float64":
+                add("pwm_to_mapping:single-precision-accumulation", "with a %s PWM the score distribution is stored in reduced precision (%d lossy stores, e.g. %s; result dtype %s)" % (
+                    cfg["dtype"], len(events), events[:1], tab.dtype), dict(cfg, kind="dtype"))
+            else:
+                ctx.stats.discharged += 1
+            if not out["samples"]:
+                out["samples"].append({"cfg": cfg, "table_len": int(tab.shape[0])})
+            return "returned"
+        core.explore(body, stats=stats)
+
+    elif kind == "whole_l1":
         blk, info = ld.slice_function("tools.fimo", "_pwm_to_mapping", _asg("smallest"), lambda st, text: isinstance(st, ast.Return),
                                       ["int_log_pwm", "n", "l", "log_bg"], None, extra_globals=G)
         out["functions"].append(info)
@@ -375,6 +430,8 @@ def worker(cfg):
 def configs(tier):
     q = tier == "quick"
     cf = [dict(kind="logaddexp2"), dict(kind="whole_l1", R=2 if q else 3), dict(kind="RET"), dict(kind="fimo_history")]
+    cf.append(dict(kind="dtype", dtype="float32", bin="1/2", M=[[1, -2], [0, 1], [-1, 0], [2, 2]]))
+    cf.append(dict(kind="dtype", dtype="float64", bin="1/2", M=[[1, -2, 0], [0, 1, 1], [-1, 0, -3], [2, 2, 1]]))
     for l in ((1, 2, 3) if q else (1, 2, 3, 4)):
         cf.append(dict(kind="E", l=l, R=3))
     for K in ((3, 5) if q else (3, 5, 7)):
